@@ -960,7 +960,7 @@ def _replay_history(case):
     devs = _devs_from_json(case["devs"])
     c = Cfg(devs)
     if not c.accepted:
-        return [("replay:config-rejected", c.err)]
+        return []  # the validator rejects this setting (now): it is outside the property's quantifier, nothing to judge
     if c.unreadable is not None:
         return [("config:accepted-parameter-not-a-number", c.unreadable)]
     s0 = initial_store(case["init"], c)
